@@ -9,6 +9,8 @@ import (
 	"go/types"
 	"sort"
 	"strings"
+
+	"golang.org/x/tools/go/ssa"
 )
 
 func init() { register("C13", checkC13) }
@@ -258,6 +260,59 @@ func checkC13(w *World, r *Report) {
 			}
 		}
 		r.Check(bad == "", "R13.7", "Compiler holds no built types", ct.Pos(), fmt.Sprintf("%d fields, none stores schema.Type values", st.NumFields()), "Compiler."+bad+" keeps built schema.Type values: a type shared between two derivations has its pattern/range slices appended to by both (append into spare capacity of the shared backing array), so one derived type ends up enforcing the other's restriction")
+	})
+
+	r.Rule("R13.8", "every restriction written in a type statement is tested against the kinds that apply to the base type, wherever it stands among the substatements: validateRestrictions' loop over the children runs to the end (no early break) ", 1)
+	r.guard("R13.8", func() {
+		f := w.SSAFunc(w.Method("compile", "Compiler", "validateRestrictions"))
+		if f == nil {
+			panic(undecided{"Compiler.validateRestrictions"})
+		}
+		found, ok, why := loopOnlyLeavesAtHead(f, func(c ssa.CallInstruction) bool {
+			return c.Common().IsInvoke() && c.Common().Method.Name() == "IsTypeRestriction" || (c.Common().StaticCallee() != nil && c.Common().StaticCallee().Name() == "IsTypeRestriction")
+		})
+		if !found {
+			panic(undecided{"validateRestrictions: loop over the substatements"})
+		}
+		r.Check(ok, "R13.8", "validateRestrictions examines every substatement", f.Pos(), "the loop is left only when the children are exhausted", why+": a restriction that stands after the statement at which the loop stops (e.g. after an extension statement) is never tested — `range` on a string compiles and is ignored")
+	})
+
+	r.Rule("R13.9", "a derived decimal64 keeps the fraction digits of its base: the precision handed to the final NewDecimal64 in makeDecimal64 is base.Fd() (for a builtin decimal64 the base is the one just built from the statement's fraction-digits)", 1)
+	r.guard("R13.9", func() {
+		f := w.SSAFunc(w.Method("compile", "Compiler", "makeDecimal64"))
+		if f == nil {
+			panic(undecided{"Compiler.makeDecimal64"})
+		}
+		// the NewDecimal64 call whose result is returned
+		okFd := false
+		var pos token.Pos = f.Pos()
+		for _, b := range f.Blocks {
+			ret, isRet := b.Instrs[len(b.Instrs)-1].(*ssa.Return)
+			if !isRet || len(ret.Results) != 1 {
+				continue
+			}
+			v := ret.Results[0]
+			for {
+				if mi, ok := v.(*ssa.MakeInterface); ok {
+					v = mi.X
+					continue
+				}
+				if ci, ok := v.(*ssa.ChangeInterface); ok {
+					v = ci.X
+					continue
+				}
+				break
+			}
+			call, ok := v.(*ssa.Call)
+			if !ok || call.Call.StaticCallee() == nil || call.Call.StaticCallee().Name() != "NewDecimal64" {
+				continue
+			}
+			pos = call.Pos()
+			if fd, ok := call.Call.Args[1].(*ssa.Call); ok && fd.Call.IsInvoke() && fd.Call.Method.Name() == "Fd" {
+				okFd = true
+			}
+		}
+		r.Check(okFd, "R13.9", "makeDecimal64: precision of the built type", pos, "base.Fd()", "the fraction digits of the built type are not taken from the base on every path: a derived type that restates fraction-digits gets a different precision than its base while inheriting the base's ranges, and accepts values its base rejects")
 	})
 
 	r.Rule("R13.5", "a default that the final type rejects is refused: validateDefault is called unconditionally on every path that returns a type from makeBuiltinType and refineType, and it validates the default with the type's own Validate", 3)
